@@ -304,10 +304,17 @@ func BuildCte(query *Query, expr *sqlparser.With) error {
 	if expr == nil {
 		return nil
 	}
+	// the CTEs are registered next to the input: use a copy of the top level
+	// so that the caller's map does not gain the CTE entries
+	data := make(Map, len(query.data)+len(expr.CTEs))
+	for key, value := range query.data {
+		data[key] = value
+	}
+	query.data = data
 	for _, cte := range expr.CTEs {
 		copy := *cte
-		query.data[copy.ID.String()] = CteEvaluation(func() (any, error) {
-			query, err := Prepare(query.data, copy.Subquery, query.options)
+		data[copy.ID.String()] = CteEvaluation(func() (any, error) {
+			query, err := Prepare(data, copy.Subquery, query.options)
 			if err != nil {
 				return nil, err
 			}
@@ -315,7 +322,7 @@ func BuildCte(query *Query, expr *sqlparser.With) error {
 			if err != nil {
 				return nil, err
 			}
-			query.data[copy.ID.String()] = rs
+			data[copy.ID.String()] = rs
 			return rs, nil
 		})
 	}
